@@ -7,6 +7,10 @@ from registry import REGISTRY
 from notapplicable import NOT_APPLICABLE, NOT_BUILT
 
 props = [json.loads(l)["id"] for l in open(os.path.join(V, "properties.jsonl"))]
+# harnesses still under development / not yet validated are not claimed
+PENDING = set(open(os.path.join(V, "pending.txt")).read().split()) if os.path.exists(os.path.join(V, "pending.txt")) else set()
+for _p in PENDING:
+    REGISTRY.pop(_p, None)
 checks = []
 for pid in props:
     if pid not in REGISTRY:
